@@ -41,6 +41,8 @@ def render(r, chain):
             if j == '' and prev[-1] not in '¼½24':
                 j = ' '
             if r.random() < 0.15:
+                j = r.choice([j.upper(), j.title()])      # 'OF THE', 'Of The': the words are matched whatever their case
+            if r.random() < 0.15:
                 # any blank the patterns' `\s` accepts joins components like a space does: no-break / thin / ideographic space, tab
                 j = j.replace(' ', r.choice(['\xa0', '\u2009', '\u202f', '\u3000', '\t', '  ']))
             parts.append(j)
